@@ -335,6 +335,58 @@ pub fn subs(run: &Arc<Run>) -> Vec<Arc<dyn Sub>> {
             |idx| json!({"queries": idx + 1, "inner": "7 blowups x 3 grinding x 3 extensions; thresholds level-1, level, level+1; option sets"}),
         ));
     }
+    // ---- the collision resistance each library hasher declares: half the digest size stated in its
+    // documentation (32-byte digests: 128; 24-byte digests: 96; four 64-bit elements: 128; four 62-bit elements:
+    // 248 / 2 = 124). The estimates above take it as a parameter; here it is checked for the real hashers, and
+    // through them the cap of both estimates and the policy.
+    {
+        use crypto::Hasher;
+        use glue::{B128, B62};
+        subs.push(sub_t(
+            "library_hashers.collision_resistance",
+            6,
+            60,
+            true,
+            |idx, out| {
+                let (name, declared, want, digest_bytes): (&str, u32, u32, usize) = match idx {
+                    0 => ("Blake3_256", hashers::Blake3_256::<B64>::COLLISION_RESISTANCE, 128, hashers::Blake3_256::<B64>::hash(b"x").to_bytes().len()),
+                    1 => ("Blake3_192", hashers::Blake3_192::<B62>::COLLISION_RESISTANCE, 96, hashers::Blake3_192::<B62>::hash(b"x").to_bytes().len()),
+                    2 => ("Sha3_256", hashers::Sha3_256::<B128>::COLLISION_RESISTANCE, 128, hashers::Sha3_256::<B128>::hash(b"x").to_bytes().len()),
+                    3 => ("Rp64_256", hashers::Rp64_256::COLLISION_RESISTANCE, 128, 32),
+                    4 => ("Rp62_248", hashers::Rp62_248::COLLISION_RESISTANCE, 124, 31),
+                    _ => ("RpJive64_256", hashers::RpJive64_256::COLLISION_RESISTANCE, 128, 32),
+                };
+                out.nontrivial();
+                if declared != want || (idx < 3 && declared as usize != digest_bytes * 4) {
+                    out.violation(format!("{name}: declared collision resistance differs from half the documented digest size"), json!({"declared": declared, "documented": want}));
+                }
+                // a proof with parameters far above the cap: both estimates must stop at the hasher's collision
+                // resistance, and the policy must refuse the first minimum above it
+                let opts = ProofOptions::new(255, 16, 16, FieldExtension::Cubic, 4, 31);
+                let bits = if idx == 1 || idx == 4 { 62 } else if idx == 2 { 128 } else { 64 };
+                let opts = if bits == 128 { ProofOptions::new(255, 16, 16, FieldExtension::Quadratic, 4, 31) } else { opts };
+                let Ok(p) = proof_with(10, bits, &opts) else {
+                    out.violation("a context inside the documented parameter space cannot be decoded", json!({"hasher": name}));
+                    return;
+                };
+                let (lc, lp, above_c, above_p) = match idx {
+                    0 => (p.security_level::<hashers::Blake3_256<B64>>(true), p.security_level::<hashers::Blake3_256<B64>>(false), AcceptableOptions::MinConjecturedSecurity(want + 1).validate::<hashers::Blake3_256<B64>>(&p).is_ok(), AcceptableOptions::MinProvenSecurity(want + 1).validate::<hashers::Blake3_256<B64>>(&p).is_ok()),
+                    1 => (p.security_level::<hashers::Blake3_192<B62>>(true), p.security_level::<hashers::Blake3_192<B62>>(false), AcceptableOptions::MinConjecturedSecurity(want + 1).validate::<hashers::Blake3_192<B62>>(&p).is_ok(), AcceptableOptions::MinProvenSecurity(want + 1).validate::<hashers::Blake3_192<B62>>(&p).is_ok()),
+                    2 => (p.security_level::<hashers::Sha3_256<B128>>(true), p.security_level::<hashers::Sha3_256<B128>>(false), AcceptableOptions::MinConjecturedSecurity(want + 1).validate::<hashers::Sha3_256<B128>>(&p).is_ok(), AcceptableOptions::MinProvenSecurity(want + 1).validate::<hashers::Sha3_256<B128>>(&p).is_ok()),
+                    3 => (p.security_level::<hashers::Rp64_256>(true), p.security_level::<hashers::Rp64_256>(false), AcceptableOptions::MinConjecturedSecurity(want + 1).validate::<hashers::Rp64_256>(&p).is_ok(), AcceptableOptions::MinProvenSecurity(want + 1).validate::<hashers::Rp64_256>(&p).is_ok()),
+                    4 => (p.security_level::<hashers::Rp62_248>(true), p.security_level::<hashers::Rp62_248>(false), AcceptableOptions::MinConjecturedSecurity(want + 1).validate::<hashers::Rp62_248>(&p).is_ok(), AcceptableOptions::MinProvenSecurity(want + 1).validate::<hashers::Rp62_248>(&p).is_ok()),
+                    _ => (p.security_level::<hashers::RpJive64_256>(true), p.security_level::<hashers::RpJive64_256>(false), AcceptableOptions::MinConjecturedSecurity(want + 1).validate::<hashers::RpJive64_256>(&p).is_ok(), AcceptableOptions::MinProvenSecurity(want + 1).validate::<hashers::RpJive64_256>(&p).is_ok()),
+                };
+                if lc > want || lp > want || above_c || above_p {
+                    out.violation(format!("{name}: an estimate exceeds the hasher's collision resistance, or a minimum above it is accepted"), json!({"conjectured": lc, "proven": lp, "collision_resistance": want, "min_above_accepted": [above_c, above_p]}));
+                }
+                if lc != want {
+                    out.violation(format!("{name}: conjectured estimate of an over-provisioned proof is not capped exactly at the collision resistance"), json!({"conjectured": lc, "collision_resistance": want}));
+                }
+            },
+            |idx| json!({"hasher": (["Blake3_256", "Blake3_192", "Sha3_256", "Rp64_256", "Rp62_248", "RpJive64_256"][idx as usize])}),
+        ));
+    }
     let _ = TraceInfo::new(1, 8);
     subs
 }
